@@ -135,6 +135,15 @@ check_inv(void)
 #define OP_VISIT 4
 #define OP_ALLOC 5
 
+static void __attribute__((noinline))
+stack_poison(void)
+{
+#if VH_NATIVE
+	volatile unsigned char junk[512];
+	for (unsigned i = 0; i < sizeof(junk); i++)
+		junk[i] = 0xa5;
+#endif
+}
 void
 harness(void)
 {
@@ -207,7 +216,18 @@ harness(void)
 		env_random_value = ND(u32);
 		u64 lo = LO ? LO : 1, hi = HI ? HI : 0xffffffffu;
 		int full = (u64) ref_count() > hi - lo;
+#ifdef ALLOC32
+		/* the 32-bit form every issue site of the library uses (sockets, contexts, pipes, dialers, listeners,
+		 * request and survey ids); the out-parameter holds a sentinel to show what a refused call stores */
+		u32 id32 = 0x5a5a5a5au;
+		stack_poison(); /* native replay: a local the callee forgets to initialise then holds 0xa5.. instead of whatever was there */
+		int rv   = nni_id_alloc32(&m, &id32, &vals[15]);
+		id       = id32;
+		if (full)
+			CHECK(id32 == 0x5a5a5a5au || id32 == 0, "a refused nni_id_alloc32 stores no made-up identifier (unchanged or 0, the value that means 'none')");
+#else
 		int rv   = nni_id_alloc(&m, &id, &vals[15]);
+#endif
 		if (full) {
 			CHECK(rv == NNG_ENOMEM, "alloc on an exhausted range: ENOMEM");
 #if EXPECT_FULL
